@@ -67,8 +67,11 @@ def main():
         dst = os.path.join(HERE, "seeded", os.path.basename(seed.rstrip("/")))
         os.makedirs(dst, exist_ok=True)
         for fn in ("patch.diff", "demo.py"):
-            shutil.copy(os.path.join(seed, fn), os.path.join(dst, fn))
+            if os.path.realpath(seed) != os.path.realpath(dst):
+                shutil.copy(os.path.join(seed, fn), os.path.join(dst, fn))
         meta = dict(meta)
+        if "tests" not in res and "confirmed_by_us" in meta:
+            res["tests"] = meta["confirmed_by_us"].get("pinned_test_suite_on_mutated")
         meta["confirmed_by_us"] = dict(
             demo_on_pristine_rc=res["demo_pristine_rc"], demo_on_mutated_rc=res["demo_mutated_rc"],
             pinned_test_suite_on_mutated=res.get("tests"), ran="tools/run_seed.py (scratch git worktree of /repo HEAD, patch applied with git apply)",
